@@ -239,6 +239,13 @@ pub fn Transition(props: SuspenseProps) -> View {
         }
     }
 
+    // On the server there is no previous content to keep: a transition is a plain suspense there.
+    // Otherwise tasks started under the transition after it first resolved (e.g. a refetch, or a
+    // dynamic view that shows an async component) would not be waited for by a streaming render.
+    if is_ssr!() {
+        return Suspense(props);
+    }
+
     view! {
         Suspense(fallback=props.fallback, children=Children::new(move || {
             view! { TransitionInner(children=props.children, set_is_loading=props.set_is_loading) }
